@@ -470,9 +470,9 @@ func (obj *LogisticRegression) f_sparse(i int, theta DenseFloat64Vector) (float6
   if i >= len(x) {
     return y, w, x[i], fmt.Errorf("index out of bounds")
   }
-  obj.logisticRegression.Theta = theta
-
-  r := obj.logisticRegression.LogPdfSparse(x[i])
+  // this function is called concurrently by the saga workers, each with
+  // its own theta: evaluate without storing theta in the shared object
+  r := logisticRegression{theta}.LogPdfSparse(x[i])
 
   if math.IsNaN(r) {
     return y, w, x[i], fmt.Errorf("NaN value detected")
